@@ -7,7 +7,8 @@ restores /repo after each (git checkout -- .), writes the outcome into the chang
 """
 import glob, json, os, re, subprocess, sys
 
-ids = sys.argv[1:]
+ids = [a for a in sys.argv[1:] if not a.startswith("--")]
+ONLY_MISSING = "--only-missing" in sys.argv  # skip changes whose meta.json already records a result
 ENV = dict(os.environ, CARGO_NET_OFFLINE="true")
 
 
@@ -26,6 +27,12 @@ def main():
         pid, name = d.rstrip("/").split("/")[-2:]
         if ids and pid not in ids:
             continue
+        if ONLY_MISSING:
+            try:
+                if "check_result" in json.load(open(os.path.join(d, "meta.json"))):
+                    continue
+            except Exception:
+                pass
         applied = None
         for cand in ("patch.head.diff", "patch.ported.diff", "patch.diff"):
             p = os.path.join(d, cand)
@@ -36,7 +43,7 @@ def main():
                 p = os.path.join(d, cand)
                 if os.path.exists(p) and sh(f"git apply --3way {p}", cwd="/repo")[0] == 0:
                     sh("git reset -q", cwd="/repo"); applied = cand + " (3-way)"; break
-                sh("git checkout -- . ; git reset -q", cwd="/repo")
+                sh("git reset -q --hard HEAD", cwd="/repo")
         if applied is None:
             rows.append((pid, name, "NOAPPLY", "", "")); print(rows[-1], flush=True); continue
         rc, out = sh(f"./check {pid} quick")
